@@ -221,7 +221,7 @@ CLAIMED.update({
 # Clauses added after the first build (rules added because a seeded change was missed, or re-decided
 # from a neighbouring property); appended to the level text.
 ADDENDA = {
-    "C01": " Also decided here (re-decided from C02/C06 because the generator and the legality filter rest on them): the castling-rights table CastlingRightsLost over all (From,To) classes, and the attack queries behind IsChecked/IsAttacked/IsAttackedBy/IsCheckMate.",
+    "C01": " Also decided here (re-decided from C02/C06 because the generator and the legality filter rest on them): the castling-rights table CastlingRightsLost over all (From,To) classes, and the attack queries behind IsChecked/IsAttacked/IsAttackedBy/IsCheckMate together with the boards they read (rotated-view windows, slider rays, leaper and pawn tables, Attackboard dispatch: the C06 rules, for every square).",
     "C03": " Hand-back: PopMove is the exact inverse of PushMove, the game result included (R08-inverse re-decided; defect F23). The window clause reads, as corrected after defect F19: the child's bounds are negations of the parent's bounds translated by the inverse of the mate-distance increment, decided as the identity Negate(IncrementMateDistance(bound handed down)) = parent's bound on every abstract score region (R03-window). Also decided: the move loop is left early only on alpha >= beta or cancellation; no node returns on a cut-off before a move was tried or the mate/stalemate verdict produced; the score algebra of C09 including DecrementMateDistance (re-decided as R03-scores); MoveList.Next is empty-exact.",
     "C04": " Also decided: every call of a halting Engine method in the command loop is preceded by the deactivation helper (a superseded search never gets a bestmove of its own; R16-supersede re-decided as R04-single); a go always halts what the engine still has registered before it launches.",
     "C05": " Also decided: the shape of HasInsufficientMaterial (piece sets of both colours, case split 2/3/4 and thresholds, the bishops' square colours told by a colour-complex mask - R05-dead, which exposed defect F18); that a forked board carries clock, counters and shared past (R05-fork); that the per-hash gate of the re-count is sound (C07's delta rule re-decided as R05-hashgate).",
@@ -236,7 +236,7 @@ ADDENDA = {
     "C16": " A timer whose callback halts the engine is kept and stopped (R16-timer, defect F27); a hash size from the command line reaches the engine only range-checked (R16-options, defect F28); the completion's compare-and-swap expects a per-search id handed in by the caller and info lines are printed only for the search they belong to (R16-stale restated; the former known finding F12 is repaired), and searches are completed by the command loop itself, never by a goroutine it started (defect F32); the output channel is closed only after the forwarders were joined (R16-close-owner decides the join; the former known finding F11 is repaired); no command other than quit, end of input or close leaves the command loop (the former known finding F13 is repaired) - C16 has no listed findings left. The rules read the active flag through a representation-agnostic model (clear / arm / win / load). The noise generator's mutex must be shared by every copy of the generator (not a by-value field of a copied receiver). Also decided (R16-supersede): a command that halts the engine's search on the way to something else clears the active flag first; goroutines started by the command loop share only variables that are no longer assigned.",
     "C18": " No evaluator state is excepted any more (defect F29): a store through a parameter is accepted only if every caller in search code passes an object it has just created. Also decided: Engine.Reset replaces board, table and noise generator on every path (a reset engine does not continue a consumed random stream); the stateful SARGON evaluator is re-initialised on every path of its Reset without reading old state; map iteration in search code is order-insensitive by shape.",
     "C17": " Also decided (R17-range, defect F30): ply and depth are narrowed into the entry only under range tests, and the replacement value is computed in a type wider than its operand fields.",
-    "C20": " Also decided: every narrowing of the plausible-move list after the initial filter is guarded by the castle-ranked flag; the branch-limit cut is made before Selection (helper or inline).",
+    "C20": " Also decided: every narrowing of the plausible-move list after the initial filter is guarded by the castle-ranked flag; the branch-limit cut is made before Selection (helper or inline); every key of a book map keeps the leading FEN fields the legality of the filed reply depends on (R20-key: placement and side for every book, castling rights and e.p. target too for books built from played lines).",
 }
 for _pid, _t in ADDENDA.items():
     if _pid in CLAIMED:
